@@ -150,6 +150,7 @@ type Case struct {
 	Comp     *CompCase        `json:"comp,omitempty"` // component scenarios
 	MaxSteps int64            `json:"max_steps,omitempty"`
 	Life     string           `json:"life,omitempty"`
+	Damage   *Damage          `json:"damage,omitempty"`
 }
 
 // Clone deep-copies a case through JSON.
